@@ -23,6 +23,10 @@ def main():
         try:
             val = getattr(mod, req["fn"])(req["arg"])
             rep = {"ok": True, "val": val}
+            from vlib import monitors
+            if monitors.ERRORS:
+                rep["monitor_errors"] = list(monitors.ERRORS)
+                del monitors.ERRORS[:]
         except BaseException as e:  # worker-level failure of the harness itself
             if isinstance(e, (KeyboardInterrupt, SystemExit)):
                 raise
